@@ -1,5 +1,5 @@
 """C02 — AVX2 lane kernels equal the scalar field op in every lane, for every input.
-Model: LaneKernels.tla, an intrinsic-by-intrinsic transcription of one lane of every AVX2 kernel (shifted representation,
+Model: LaneKernels.tla, generated at check time from the intrinsic code of the current tree (tools/avx2tla.py): one lane of every AVX2 kernel (shifted representation,
 signed 64-bit compares, the 32-bit high-half compare shortcut, movehdup/moveldup/blend recombination, the 33/31-bit
 shifts of the squaring).  TLC: every lane operand pair at W in {2,3,4} under each kernel's documented assumption:
 output represents the scalar result (the 128-bit products exactly).  Apalache W=32: the same text for all lane contents,
@@ -16,13 +16,13 @@ APA = ['InvToCanon', 'InvAdd', 'InvAddASc', 'InvAddSBSmall', 'InvAddBSmall', 'In
 def run(tier, seed, replay=None):
     ck = Check('C02', tier, seed)
     wd = workdir('C02')
-    ck.assumptions += ['the lane model is a hand transcription of the intrinsics; the compiled kernels are bound by replay',
+    ck.assumptions += ['the lane model is GENERATED from the intrinsic code of the current tree (tools/avx2tla.py; trusted: its intrinsic semantics table); model counterexamples are replayed on the compiled kernels',
                        'mul_epu32 (32x32->64) is the trusted primitive; at W=32 its results are universally quantified within range']
     if replay:
         cases = [lanelib.case_from_json(c) for c in json.load(open(replay))['case']['cases']]
     else:
-        lanelib.model_lane(ck, wd, tier, APA)
-        cases = lanelib.lane_cases(lanelib.LANE2, seed, tier)
+        leads = lanelib.model_lane(ck, wd, tier, APA)
+        cases = lanelib.lead_cases(lanelib.LANE2, leads) + lanelib.lane_cases(lanelib.LANE2, seed, tier)
     lanelib.replay(ck, wd, 'avx2', cases, 'AVX2 lane kernels (%d register groups, 17 kernels)' % len(cases),
                    lambda c, r: 'kernel %s lanes a=%s b=%s' % (c[1], ' '.join('%x' % p[0] for p in c[2]), ' '.join('%x' % p[1] for p in c[2])))
     ck.cov['register_groups'] = len(cases)
